@@ -149,8 +149,11 @@ def _long_program(rng, tier, run):
         n_ops = rng.choice([300, 600, 1200, 2500, 4000])
     fam = FILLER_K1 if k1 else FILLER_K0
     base = rng.randrange(1000)
-    hows = [['filtered', {}], ['extended', [['mb', ['[', '{']]]], ['extended', [['xq', ['{']]]]]
+    hows = [['filtered', {}], ['extended', [['mb', ['[', '{']]]], ['extended', [['xq', ['{']]]],
+            ['extended_s', ['&&']], ['extended_s', ['~~', '!w']], ['extended_s', ['&&', '??']]]
     can_derive = kind in ('K0', 'K1', 'K2', 'K3')
+    if mode == 'contexts':
+        pool += ['a && b ~~ c !w ?? d', 'x&&y\n\nz ~~']
     i = 0
     while len(ops) < n_ops:
         x = rng.random()
